@@ -351,6 +351,8 @@ func (sk *SpaceKeeper) StopWS(sid string) error {
 
 	if ws, ok := sk.workSpaceIndex[allState].Get(sid); !ok || !ws.using {
 		return ErrWorkSpaceDoesNotExist
+	} else {
+		ws.stopEpoch++ // voids requests the plotter has not picked up from the hand-off channel yet
 	}
 
 	sk.queue.Delete(sid)
@@ -387,6 +389,7 @@ func (sk *SpaceKeeper) RemoveWS(sid string) error {
 		return ErrWorkSpaceDoesNotExist
 	}
 
+	ws.stopEpoch++ // voids requests the plotter has not picked up from the hand-off channel yet
 	sk.queue.Delete(sid)
 
 	if ws, ok = sk.workSpaceIndex[engine.Registered].Get(sid); !ok {
@@ -411,6 +414,7 @@ func (sk *SpaceKeeper) DeleteWS(sid string) error {
 		return ErrWorkSpaceDoesNotExist
 	}
 
+	ws.stopEpoch++ // voids requests the plotter has not picked up from the hand-off channel yet
 	sk.queue.Delete(sid)
 
 	if ws, ok = sk.workSpaceIndex[engine.Registered].Get(sid); !ok {
